@@ -2367,7 +2367,203 @@ def rtf_unicode_obligations(repo, tier):
         return {"obligations": _unknown(pre, RTF_UNICODE_IDS, f"{type(e).__name__}: {e}", fq), "functions": [], "undecided": []}
 
 
-EXTRA = [bounded_native, fragment_obligations, empty_element_obligations, rtf_unicode_obligations]
+# =====================================================================================
+# ODT body walk  --  odt_extractor.py::_append_full_text_from_element, container branches (text:list, table:table)
+#
+# Statement: no paragraph is lost.  A container branch is a nest of loops, each ranging over `x.iter(tag)` (x itself and
+# every descendant with that tag) or `x.findall(tag)` / `x.iterfind(tag)` (children with that tag).  The set of paragraphs
+# the nest reaches must contain every paragraph the document format places in the container (ODF 1.2, not the code):
+#   text:list    -- every text:p below a text:list-item below the list (items of nested lists, tables in items included)
+#   table:table  -- every text:p below a table:table-cell that is a child of a table:table-row below the table
+# (text:list-header and text:h inside items / cells are the recorded findings F20-odt-list-header / -heading-in-list.)
+# VC over an abstract tree (CHILD, strict DESC, transitive; TAG): `placed by the format` -> `reached by the nest`; the
+# witnesses of the nest range over the nodes the hypothesis names.  The nest is read off the real AST; a branch that is not a
+# plain nest whose innermost body appends the paragraph's text is `unknown` (the native odt scope decides).
+# (That a reached paragraph is emitted once too often is a different clause: recorded findings F20-odt-nested-*.)
+# =====================================================================================
+ODT = "sharepoint2text/parsing/extractors/open_office/odt_extractor.py"
+_NS_TEXT, _NS_TABLE = "urn:oasis:names:tc:opendocument:xmlns:text:1.0", "urn:oasis:names:tc:opendocument:xmlns:table:1.0"
+ODT_PLACED = {
+    "list": ("{%s}list" % _NS_TEXT, [("desc", "{%s}list-item" % _NS_TEXT), ("desc", "{%s}p" % _NS_TEXT)]),
+    "table": ("{%s}table" % _NS_TABLE, [("desc", "{%s}table-row" % _NS_TABLE), ("child", "{%s}table-cell" % _NS_TABLE), ("desc", "{%s}p" % _NS_TEXT)]),
+}
+ODT_COVER_IDS = [f"policy#every-paragraph-placed-in-a-{k}-is-reached" for k in ODT_PLACED]
+
+
+def _module_strs(mod):
+    """Module-level NAME -> str for names bound to string expressions over literal tables (f"{{{NS['text']}}}p")."""
+    import ast
+    env, out = {}, {}
+    for name, node in mod.assigns.items():
+        try:
+            env[name] = ast.literal_eval(node)
+        except Exception:  # noqa
+            pass
+    for name, node in mod.assigns.items():
+        if name in env:
+            continue
+        try:
+            v = eval(compile(ast.Expression(node), "<const>", "eval"), {"__builtins__": {}}, dict(env))   # noqa: S307 (no builtins, literals only)
+        except Exception:  # noqa
+            continue
+        env[name] = v
+    for name, v in env.items():
+        if isinstance(v, str):
+            out[name] = v
+    return out
+
+
+def _loop_nest(branch_body, root, acc, strs):
+    """[(step, tag)] of a plain loop nest over the tree below `root` whose innermost body appends text of the innermost
+    loop variable to `acc`; raises Unsupported for any other shape."""
+    import ast
+    chain, cur, body = [], root, [x for x in branch_body if not (isinstance(x, ast.Return) and x.value is None)]
+
+    def step_of(it, cur):
+        if not (isinstance(it, ast.Call) and isinstance(it.func, ast.Attribute) and isinstance(it.func.value, ast.Name) and it.func.value.id == cur
+                and it.func.attr in ("iter", "findall", "iterfind") and len(it.args) == 1 and not it.keywords):
+            raise X.Unsupported("loop does not range over iter / findall of the enclosing element")
+        a = it.args[0]
+        tag = strs.get(a.id) if isinstance(a, ast.Name) else (a.value if isinstance(a, ast.Constant) and isinstance(a.value, str) else None)
+        if tag is None or (it.func.attr != "iter" and not tag.startswith("{")):
+            raise X.Unsupported("tag of a loop not resolved (or a path expression)")
+        return ("desc*" if it.func.attr == "iter" else "child", tag)
+    # the same nest written as one comprehension:  acc.extend(text for a in root.iter(A) for p in a.iter(P) if <text is not blank>)
+    if len(body) == 1 and isinstance(body[0], ast.Expr) and isinstance(body[0].value, ast.Call) and isinstance(body[0].value.func, ast.Attribute) \
+            and body[0].value.func.attr == "extend" and isinstance(body[0].value.func.value, ast.Name) and body[0].value.func.value.id == acc \
+            and len(body[0].value.args) == 1 and isinstance(body[0].value.args[0], (ast.GeneratorExp, ast.ListComp)):
+        comp = body[0].value.args[0]
+        for k, g in enumerate(comp.generators):
+            if not isinstance(g.target, ast.Name) or g.is_async or (g.ifs and k < len(comp.generators) - 1):
+                raise X.Unsupported("comprehension clause with a filter on an outer level")
+            chain.append(step_of(g.iter, cur))
+            cur = g.target.id
+        last = comp.generators[-1]
+        elt = ast.unparse(comp.elt)
+        uses_cur = lambda n: isinstance(n, ast.Call) and any(isinstance(y, ast.Name) and y.id == cur for y in ast.walk(n))
+        okf = not last.ifs
+        if len(last.ifs) == 1:
+            t = last.ifs[0]
+            inner = t.func.value if isinstance(t, ast.Call) and isinstance(t.func, ast.Attribute) and t.func.attr == "strip" and not t.args else t
+            if isinstance(inner, ast.NamedExpr) and isinstance(comp.elt, ast.Name) and inner.target.id == comp.elt.id and uses_cur(inner.value):
+                okf = True
+            elif uses_cur(inner) and ast.unparse(inner) == elt:
+                okf = True
+        if not okf or not (isinstance(comp.elt, ast.Name) or uses_cur(comp.elt)):
+            raise X.Unsupported("comprehension does not yield the paragraph's text under a blank test only")
+        return chain
+    while True:
+        if len(body) != 1 or not isinstance(body[0], ast.For) or body[0].orelse or not isinstance(body[0].target, ast.Name):
+            raise X.Unsupported("branch is not a plain loop nest")
+        f = body[0]
+        chain.append(step_of(f.iter, cur))
+        cur, body = f.target.id, f.body
+        if not any(isinstance(x, ast.For) for x in body):
+            break
+    # innermost body: text = f(.. cur ..); [if <test on text>:] acc.append(text)   -- nothing else
+    texts = set()
+    for x in body:
+        if isinstance(x, ast.Assign) and len(x.targets) == 1 and isinstance(x.targets[0], ast.Name) and isinstance(x.value, ast.Call) \
+                and any(isinstance(y, ast.Name) and y.id == cur for y in ast.walk(x.value)):
+            texts.add(x.targets[0].id)
+            continue
+        stmts = [x]
+        if isinstance(x, ast.If) and not x.orelse and {y.id for y in ast.walk(x.test) if isinstance(y, ast.Name)} <= texts \
+                and ast.unparse(x.test) in {f"{t}.strip()" for t in texts} | {f"{t}" for t in texts}:
+            stmts = x.body
+        ok = len(stmts) == 1 and isinstance(stmts[0], ast.Expr) and isinstance(stmts[0].value, ast.Call) and isinstance(stmts[0].value.func, ast.Attribute) \
+            and stmts[0].value.func.attr == "append" and isinstance(stmts[0].value.func.value, ast.Name) and stmts[0].value.func.value.id == acc \
+            and len(stmts[0].value.args) == 1 and isinstance(stmts[0].value.args[0], ast.Name) and stmts[0].value.args[0].id in texts
+        if not ok:
+            raise X.Unsupported("innermost body is not `text = f(paragraph); if text.strip(): out.append(text)`")
+    if not texts:
+        raise X.Unsupported("innermost body does not take the paragraph's text")
+    return chain
+
+
+def odt_cover_vc(placed, nest):
+    """(hypotheses, goal) of `placed by the format -> reached by the nest` over nodes e, s1..sk."""
+    NODE = z3.DeclareSort("OdtNode")
+    CHILD_, DESC_ = z3.Function("odt.child", NODE, NODE, B), z3.Function("odt.desc", NODE, NODE, B)
+    TAG_ = z3.Function("odt.tag", NODE, S)
+    e = z3.Const("container", NODE)
+    ss = [z3.Const(f"placed{k}", NODE) for k in range(len(placed))]
+    nodes = [e] + ss
+    hyps = []
+    for a in nodes:
+        hyps.append(z3.Not(DESC_(a, a)))
+        for b in nodes:
+            hyps.append(z3.Implies(CHILD_(a, b), DESC_(a, b)))
+            for c in nodes:
+                hyps.append(z3.Implies(z3.And(DESC_(a, b), DESC_(b, c)), DESC_(a, c)))
+    prev = e
+    for (step, tag), n in zip(placed, ss):
+        hyps += [CHILD_(prev, n) if step == "child" else DESC_(prev, n), TAG_(n) == lit(tag)]
+        prev = n
+    import itertools
+    alts = []
+    for combo in itertools.product(nodes, repeat=len(nest)):
+        if combo[-1] is not ss[-1]:
+            continue
+        prev, cs = e, []
+        for (step, tag), n in zip(nest, combo):
+            cs += [CHILD_(prev, n) if step == "child" else z3.Or(prev == n, DESC_(prev, n)), TAG_(n) == lit(tag)]
+            prev = n
+        alts.append(z3.And(cs))
+    return hyps, z3.Or(alts) if alts else z3.BoolVal(False)
+
+
+def odt_cover_obligations(repo, tier):
+    import ast
+    from pyvc import loader, verify
+    from pyvc.contracts import Registry
+    from pyvc.exctypes import Universe
+    pre = "C02/odt_extractor.py::_append_full_text_from_element/"
+    fq = f"{ODT}::_append_full_text_from_element"
+    try:
+        mod = loader.module(ODT, repo)
+        fname = find_fn(ODT, "_append_full_text_from_element", mentions=["tag", "append"], nparams=2)
+        fnode = mod.functions.get(fname)
+        if fnode is None:
+            return {"obligations": _unknown(pre, ODT_COVER_IDS, "function not found", fq), "functions": [], "undecided": []}
+        params = [a.arg for a in fnode.args.posonlyargs + fnode.args.args]
+        root, acc = params[0], params[1]
+        strs = _module_strs(mod)
+        tagvars = {t.id for x in ast.walk(fnode) if isinstance(x, ast.Assign) and isinstance(x.value, ast.Attribute) and x.value.attr == "tag"
+                   and isinstance(x.value.value, ast.Name) and x.value.value.id == root for t in x.targets if isinstance(t, ast.Name)}
+        is_tag = lambda n: (isinstance(n, ast.Name) and n.id in tagvars) or (isinstance(n, ast.Attribute) and n.attr == "tag" and isinstance(n.value, ast.Name) and n.value.id == root)
+        branches = {}
+        for x in fnode.body:
+            if isinstance(x, ast.If) and isinstance(x.test, ast.Compare) and len(x.test.ops) == 1 and isinstance(x.test.ops[0], ast.Eq) and is_tag(x.test.left):
+                c = x.test.comparators[0]
+                v = strs.get(c.id) if isinstance(c, ast.Name) else (c.value if isinstance(c, ast.Constant) else None)
+                if isinstance(v, str):
+                    branches[v] = x
+        reg = Registry()
+        ex = EXECUTOR(mod, reg, Universe(repo))
+        ex.oid_prefix = pre[:-1]
+        out = []
+        for kind, (ctag, placed) in ODT_PLACED.items():
+            label = f"every-paragraph-placed-in-a-{kind}-is-reached"
+            br = branches.get(ctag)
+            try:
+                if br is None:
+                    raise X.Unsupported(f"no branch `tag == <{ctag.rsplit('}', 1)[-1]}>` at the top level of the function")
+                nest = _loop_nest(br.body, root, acc, strs)
+            except X.Unsupported as e:
+                out += _unknown(pre, ["policy#" + label], str(e), fq)
+                continue
+            hyps, goal = odt_cover_vc(placed, nest)
+            Executor_add = super(X.C02Executor, ex).add_vc          # plain VC: no text axioms needed
+            Executor_add("policy", label, hyps, goal, note="nest: " + " / ".join(f"{s} {t.rsplit('}', 1)[-1]}" for s, t in nest), loc=f"{ODT}:{br.lineno}")
+        for ob in ex.obls.values():
+            out.append(dict(verify.discharge(ob, None, {}), function=fq))
+        return {"obligations": out, "functions": [], "undecided": []}
+    except Exception as e:  # noqa
+        return {"obligations": _unknown(pre, ODT_COVER_IDS, f"{type(e).__name__}: {e}", fq), "functions": [], "undecided": []}
+
+
+EXTRA = [bounded_native, fragment_obligations, empty_element_obligations, rtf_unicode_obligations, odt_cover_obligations]
 
 
 def known_findings(kf, violations, repo, tier):
